@@ -81,5 +81,7 @@ int cmd_routes (void) ;
 void op_ledger (char **tok, int ntok) ;
 /* meta.c (C12) */
 void op_meta (char **tok, int ntok) ;
+/* ieee.c (C20: portable IEEE serialisers, sfendian.h helpers) */
+int cmd_ieee (int argc, char **argv) ;
 
 #endif
